@@ -437,8 +437,10 @@ def api_c_reset(wi, is_table, sequence, last_token, columns_def, after_columns, 
     statement starting with the word; the second must parse as it does alone."""
     from simple_ddl_parser import DDLParser
     firsts = ["CREATE TABLE z ( a int CHECK ( a > 1 ) ) ;", "CREATE SEQUENCE q START 1 ;", "ALTER TABLE z ADD c int ;",
-              "CREATE TABLE z LIKE y ;", "CREATE TABLE z ( a MAP < int , int > ) ;", "CREATE TABLE z ( a int ) STORED AS x ;"]
-    seconds = ["CREATE TABLE t ( a int , b varchar ( 3 ) ) ;", "CREATE SEQUENCE s INCREMENT BY 2 ;", "CREATE INDEX i ON z ( a ) ;"]
+              "CREATE TABLE z LIKE y ;", "CREATE TABLE z ( a MAP < int , int > ) ;", "CREATE TABLE z ( a int ) STORED AS x ;",
+              "CREATE TABLE z ( a int ) ;\nALTER TABLE z ADD CONSTRAINT k CHECK ( a > 1 ) ;"]
+    seconds = ["CREATE TABLE t ( a int , b varchar ( 3 ) ) ;", "CREATE SEQUENCE s INCREMENT BY 2 ;", "CREATE INDEX i ON z ( a ) ;",
+               "CREATE TABLE t ( a MAP < int , int > , b ARRAY < int > ) ;", "CREATE TABLE t ( a int ) STORED AS x ;", "ALTER TABLE z ADD c int ;"]
     for f in firsts:
         for s in seconds:
             try:
@@ -446,6 +448,6 @@ def api_c_reset(wi, is_table, sequence, last_token, columns_def, after_columns, 
                 both = DDLParser(f + "\n" + s).run()
             except Exception:
                 continue
-            if alone is not None and both[-len(alone):] != alone:
+            if alone and isinstance(both, list) and both[-len(alone):] != alone:
                 return {"ddl": f + "\n" + s, "got": both, "expected_tail": alone, "reproduced": True}
     return {"reproduced": False, "note": "statement pairs agree through the public API"}
